@@ -448,7 +448,54 @@ def cli_model(ob, info, strings):
         shutil.rmtree(d, ignore_errors=True)
 
 
+def regex_violation(eng, key, ob, r, repo_root):
+    """a refuted lexer fact: the witness string is lexed by the real lexer and compared with the
+    documented lexical grammar (the bounded tier's C08.lex check is the replay oracle)"""
+    base = {'name': ob.name, 'kind': 'obligation', 'function': key, 'solver': {k: v for k, v in r.items() if k != 'raw'},
+            'goal': ob.goal.sexpr()[:1500]}
+    detail = 'lexer fact %s is refuted (sat by %s in %.2fs)' % (ob.name, r['by'], r['seconds'])
+    s = z3.Solver()
+    s.set('timeout', 20000)
+    s.add(z3.Not(ob.goal))
+    if s.check() != z3.sat:
+        base.update({'detail': detail + '; no witness string extracted', 'suffix': 'no-failing-input-found'})
+        return base
+    m = s.model()
+    w = None
+    for d in m.decls():
+        if z3.is_string_value(m[d]):
+            w = unescape(m[d].as_string())
+    base['model'] = 'x = %r' % (w,)
+    if w is None:
+        base.update({'detail': detail, 'suffix': 'no-failing-input-found'})
+        return base
+    # place the witness in contexts: alone, after a blank, inside a node
+    tried = []
+    for ctx in ('%s', ' %s', '(a / %s)', '(a :r %s )', '%s b'):
+        for triple in (False, True):
+            text = ctx % w
+            env = dict(os.environ, PYTHONPATH=repo_root + os.pathsep + VERIF, VERIF_REPO=repo_root, PYTHONDONTWRITEBYTECODE='1')
+            pr = subprocess.run([PY_PENMAN, '-m', 'vlib.bounded.drv', '--replay',
+                                 json.dumps({'check': 'C08.lex', 'args': {'$d': [['s', text], ['triple', triple]]}})],
+                                cwd=VERIF, env=env, capture_output=True, text=True, timeout=120)
+            try:
+                out = json.loads(pr.stdout.strip().splitlines()[-1])
+            except Exception:
+                continue
+            tried.append(text)
+            if out.get('detail') not in (None, 'SKIP') and out.get('finding') is None:
+                base['replay'] = {'check': 'C08.lex', 'args': {'$d': [['s', text], ['triple', triple]]}, 'native': out}
+                base.update({'kind': 'obligation', 'detail': detail + '; REPRODUCED natively: lexing %r: %s' % (text, out['detail'][:200]),
+                             'suffix': ''})
+                return base
+    base.update({'detail': detail + '; witness %r lexes as documented in %d contexts' % (w, len(tried)),
+                 'suffix': 'no-failing-input-found'})
+    return base
+
+
 def _violation_for(eng, key, ob, r, repo_root):
+    if ob.kind == 'regex':
+        return regex_violation(eng, key, ob, r, repo_root)
     base = {'name': ob.name, 'kind': 'obligation', 'function': key, 'solver': {k: v for k, v in r.items() if k != 'raw'},
             'goal': ob.goal.sexpr()[:1500]}
     detail = 'obligation %s of %s is refuted (sat by %s in %.2fs)' % (ob.name, key, r['by'], r['seconds'])
